@@ -39,8 +39,29 @@ check() of the target reports nothing the source's check() does not; a second
 identical fetch finds nothing missing and leaves pack names and all key sets
 unchanged.
 
-Mutants this was built against (scratch worktrees, see the final report):
- see MUTANTS below.
+Findings on the unchanged tree (reported with family slugs computed from the failing case):
+ gc-rabin-delta-nul-after-source-end                bzrformats' compiled RabinGroupCompressor stores wrong bytes
+                                                    (classifier: 2a target, same length, every differing byte is NUL
+                                                    in the source text)
+ chk-stream-excludes-inventory-of-ghost-parent      GroupCHKStreamSource (2a -> 2a) leaves out the texts shared with a
+                                                    boundary parent of which the source holds only the inventory
+ xml-stream-excludes-inventory-of-ghost-parent      the same in KnitPackStreamSource / fileids_altered_by_revision_ids
+                                                    (every other format pair)
+ chk-/xml-stream-excludes-parent-the-target-lacks   the same exclusion when the target has a ghost the source has and
+                                                    find_ghosts=False
+ fetch-fails-when-target-has-a-ghost-the-source-has:<Exception>   the fetch raises in that situation
+
+Mutants this was built against (scratch worktrees; O = caught by the oracle with a concrete fetch,
+T = caught by the correspondence only):
+ M1  _walk_to_common_revisions stops only have_revs, not their seen ancestors              T (ghost filled)
+ M2  search_missing_revision_ids: `if find_ghosts and ...` (branches swapped)               O + T
+ M3  _find_parent_keys_of_revisions does not subtract the revisions themselves              O (texts missing / refused)
+ M5  RemoteStreamSink ignores the missing-basis reply                                       O (remote target + ghost parent)
+ M6  StreamSink never asks for missing parent inventories                                   O (new failure kinds)
+ M10 _present_source_revisions_for keeps ghosts                                             T (missing set)
+ M11 StreamSource.get_stream streams only the newest version of every altered file          O
+ H1  harmless rewrite of the have_revs union in _walk_to_common_revisions                   clean
+ (a mutant of RemoteRepository._serialise_search_recipe is not on the fetch path: C33 covers it)
 """
 import hashlib
 import os
@@ -71,9 +92,6 @@ TRUSTED = [
     "vcsgraph's breadth-first searcher is specified by Model/C33.bfs (its own correspondence is checked by C33)",
 ]
 
-MUTANTS = """
-"""
-
 NULL = b"null:"
 
 # ------------------------------------------------------------------ contents
@@ -92,10 +110,8 @@ NUL_FAMILY = [True]
 def gen_content(rng):
     c = _gen_content(rng)
     if not NUL_FAMILY[0]:
-        # scenarios outside the NUL family: no NUL directly after a line (bzrformats finding, see classify_corruption)
-        c = c.replace(b"\n\x00", b"\n\x01").replace(b"g\x00", b"g\x01")
-        if c.startswith(b"\x00"):
-            c = b"\x01" + c[1:]
+        # scenarios outside the NUL family: other binary bytes only (bzrformats finding, see classify_corruption)
+        c = c.replace(b"\x00", b"\x01")
     return c
 
 
@@ -533,7 +549,7 @@ def probe_exclusion():
     return _probe["x"]
 
 
-def classify_missing_text(pre_s, pre_t, post_t, new, key, find_ghosts):
+def classify_missing_text(pre_s, pre_t, post_t, new, key, find_ghosts, chk):
     """family slug for a text that an inventory copied by this fetch needs and the target lacks,
     computed from the concrete states"""
     boundary = {p for r in new for p in pre_s["revs"][r][0] if p not in new}
@@ -544,10 +560,10 @@ def classify_missing_text(pre_s, pre_t, post_t, new, key, find_ghosts):
         if any((fid, e[4]) == key for fid, e in ents.items()):
             if p not in pre_s["revs"]:
                 # the source holds only the inventory of p (a stored parent inventory of a ghost)
-                return "chk-stream-excludes-inventory-of-ghost-parent"
+                return "%s-stream-excludes-inventory-of-ghost-parent" % ("chk" if chk else "xml")
             if not find_ghosts:
                 # p is a revision of the source hidden behind a revision the target already had
-                return "chk-stream-excludes-parent-the-target-lacks"
+                return "%s-stream-excludes-parent-the-target-lacks" % ("chk" if chk else "xml")
     return None
 
 
@@ -683,7 +699,8 @@ def do_fetch(ctx, W, case, src_name, tgt_name, rev, find_ghosts, mode, batch):
                             ctx.count("missing-text-ignored:target-was-already-damaged")
                             continue
                         reported.add(key)
-                        fam = classify_missing_text(pre_s, pre_t, post_t, new, key, find_ghosts) if r in new else None
+                        fam = classify_missing_text(pre_s, pre_t, post_t, new, key, find_ghosts,
+                                                    fmt_s in GC_FORMATS and fmt_t in GC_FORMATS) if r in new else None
                         V("text %r referenced by the inventory of %r is not in the target" % (key, r), family=fam)
                         corrupt = corrupt or fam
                         continue
@@ -836,7 +853,7 @@ def run_scenario(ctx, key, stop_at=None):
     batch = []
     try:
         NUL_FAMILY[0] = rng.random() < 0.4
-        ctx.count("contents:nul-after-shared-line" if NUL_FAMILY[0] else "contents:binary-without-nul-after-line")
+        ctx.count("contents:with-nul-bytes" if NUL_FAMILY[0] else "contents:binary-without-nul")
         if kind == "ghost":
             shape = ghost_shape(rng)
             revs = gen_history(rng, len(shape), rng.randint(4, 8), shape=shape)
